@@ -131,6 +131,13 @@ pub fn quote_decode_into(
 		return None;
 	}
 
+	// With more than one field, an error (or panic) while decoding a later zero-sized field
+	// would leave the fields already written in place without ever dropping them. Decode such
+	// structs through `decode`, which drops what it has built.
+	if fields.len() > 1 {
+		return None;
+	}
+
 	// Bail if there are any extra attributes which could influence how the type is decoded.
 	if fields.iter().any(|field| {
 		utils::get_encoded_as_type(field).is_some() ||
